@@ -1,0 +1,24 @@
+//go:build verif
+
+package utils
+
+import "sync/atomic"
+
+var verifYieldFn atomic.Pointer[func(site string)]
+
+// VerifSetYield installs (or clears, with nil) the callback invoked at yield sites.
+func VerifSetYield(fn func(site string)) {
+	if fn == nil {
+		verifYieldFn.Store(nil)
+		return
+	}
+	verifYieldFn.Store(&fn)
+}
+
+// VerifYield is a scheduling point for the verification harness. It is a no-op
+// unless a callback is installed.
+func VerifYield(site string) {
+	if fn := verifYieldFn.Load(); fn != nil {
+		(*fn)(site)
+	}
+}
